@@ -574,14 +574,20 @@ func in(vs []cval, label string) bool {
 	return false
 }
 
-// streamsFrom lists every stream of <= maxLen blocks that starts with first: rejected* acceptable.
-func (o *opDef) streamsFrom(first cval, mask []byte, maxLen int, baseOnlyLast bool) []stream {
+// streamsExt lists every stream rejected* acceptable with minLen <= blocks <= maxLen that starts with prefix
+// (all prefix blocks but the last must be rejectable, otherwise the result is empty).
+func (o *opDef) streamsExt(prefix []cval, mask []byte, minLen, maxLen int, baseOnlyLast bool) []stream {
 	pre, fin := o.split(mask)
+	for _, p := range prefix[:len(prefix)-1] {
+		if !in(pre, p.label) {
+			return nil
+		}
+	}
 	var out []stream
 	var rec func(cur []cval)
 	rec = func(cur []cval) {
 		last := cur[len(cur)-1]
-		if in(fin, last.label) {
+		if in(fin, last.label) && len(cur) >= minLen {
 			out = append(out, stream{append([]cval{}, cur...)})
 		}
 		if len(cur) < maxLen && in(pre, last.label) {
@@ -596,13 +602,55 @@ func (o *opDef) streamsFrom(first cval, mask []byte, maxLen int, baseOnlyLast bo
 			}
 		}
 	}
-	rec([]cval{first})
+	rec(append([]cval{}, prefix...))
 	return out
+}
+
+func (o *opDef) streamsFrom(first cval, mask []byte, maxLen int, baseOnlyLast bool) []stream {
+	return o.streamsExt([]cval{first}, mask, 1, maxLen, baseOnlyLast)
+}
+
+// docMaskBytes is the documented XOR of the masked operations; it only decides which cases are CREATED (case names must
+// not depend on run-time measurements). Inside a case the measured mask is used.
+func (o *opDef) docMaskBytes() []byte {
+	if !o.masked {
+		return nil
+	}
+	m := make([]byte, 32)
+	m[1] = 0x42
+	return m
 }
 
 func withTails(b []byte) []byte { return concat(b, tails[0], tails[1], tails[2]) }
 
 // ---------------------------------------------------------------------------------------------
+
+// contentCase runs content oracle + fault enumeration over the given streams.
+func contentCase(t *engine.T, o *opDef, streams []stream, quick bool) {
+	for _, s := range streams {
+		lab := s.label()
+		full := withTails(concat(o.pre, s.bytes()))
+		r := runSeq(t, []*opDef{o}, full, lab)
+		t.Nontrivial(o.name + "/" + lab)
+		if len(r) != 1 || !r[0].ok {
+			if t.Failed() {
+				return // one report per case is enough; keep the run short
+			}
+			continue
+		}
+		if len(s.vals) == 2 && s.vals[0].label == "0" {
+			t.Sample(map[string]any{"operation": o.name, "stream": lab, "accepted_block": r[0].idx, "bytes_consumed": r[0].end, "reads": r[0].calls})
+		}
+		// benign deviations cost a full run each: quick tier only for streams of <= 2 blocks, thorough <= 3
+		faults(t, o, full, lab, r[0], len(s.vals) <= 2 || (!quick && len(s.vals) <= 3))
+		if !quick && len(s.vals) <= 2 {
+			faults2(t, o, full, lab, r[0])
+		}
+		if t.Failed() {
+			return
+		}
+	}
+}
 
 func (Prop) Run(c *engine.Ctx) {
 	quick := c.Quick()
@@ -617,7 +665,8 @@ func (Prop) Run(c *engine.Ctx) {
 		ops = append(ops, o)
 	}
 
-	// 1. content + fault enumeration, one case per (operation, first block)
+	// 1. content + fault enumeration. Streams of <= 3 blocks: one case per (operation, first block).
+	//    Thorough tier: streams of exactly 4 blocks, one case per (operation, first, second block).
 	for _, o := range ops {
 		o := o
 		for _, first := range o.g.vals {
@@ -627,48 +676,48 @@ func (Prop) Run(c *engine.Ctx) {
 				if !ok {
 					return
 				}
-				maxLen := 3
-				if !quick {
-					maxLen = 4
-				}
-				for _, s := range o.streamsFrom(first, mask, maxLen, false) {
-					lab := s.label()
-					full := withTails(concat(o.pre, s.bytes()))
-					r := runSeq(t, []*opDef{o}, full, lab)
-					t.Nontrivial(o.name + "/" + lab)
-					if len(r) != 1 || !r[0].ok {
-						if t.Failed() {
-							return // one report per case is enough; keep the run short
-						}
-						continue
-					}
-					if len(s.vals) == 2 && first.label == "0" {
-						t.Sample(map[string]any{"operation": o.name, "stream": lab, "accepted_block": r[0].idx, "bytes_consumed": r[0].end, "reads": r[0].calls})
-					}
-					// benign deviations cost a full run each: in the quick tier only for streams of <= 2 blocks
-					faults(t, o, full, lab, r[0], len(s.vals) <= 2 || (!quick && len(s.vals) <= 3))
-					if !quick && len(s.vals) <= 2 {
-						faults2(t, o, full, lab, r[0])
-					}
-					if t.Failed() {
+				contentCase(t, o, o.streamsFrom(first, mask, 3, false), quick)
+			})
+		}
+		if quick {
+			continue
+		}
+		docPre, _ := o.split(o.docMaskBytes())
+		for _, first := range docPre {
+			for _, second := range docPre {
+				first, second := first, second
+				c.Case(fmt.Sprintf("content+fault/%s/len=4/first=%s/second=%s", o.name, first.label, second.label), func(t *engine.T) {
+					mask, ok := o.getMask(t)
+					if !ok {
 						return
 					}
-				}
-			})
+					contentCase(t, o, o.streamsExt([]cval{first, second}, mask, 4, 4, false), quick)
+				})
+			}
 		}
 	}
 
-	// 2. the same operation twice on one reader
+	// 2. the same operation twice on one reader: one case per (operation, first stream)
 	for _, o := range ops {
 		o := o
 		if o.light {
 			continue
 		}
-		for _, first := range o.g.vals {
-			first := first
-			c.Case(fmt.Sprintf("seq/%s/first=%s", o.name, first.label), func(t *engine.T) {
+		for _, s1 := range o.streamsFrom2(o.docMaskBytes()) {
+			s1 := s1
+			c.Case(fmt.Sprintf("seq/%s/s1=%s", o.name, s1.label()), func(t *engine.T) {
 				mask, ok := o.getMask(t)
 				if !ok {
+					return
+				}
+				// re-validate the first stream under the measured mask (identical to the documented one on a correct tree)
+				valid := false
+				for _, x := range o.streamsFrom(s1.vals[0], mask, 2, false) {
+					if x.label() == s1.label() {
+						valid = true
+					}
+				}
+				if !valid {
 					return
 				}
 				var second []stream
@@ -679,14 +728,12 @@ func (Prop) Run(c *engine.Ctx) {
 						second = append(second, o.streamsFrom(f2, mask, 3, false)...)
 					}
 				}
-				for _, s1 := range o.streamsFrom(first, mask, 2, false) {
-					for _, s2 := range second {
-						lab := s1.label() + " || " + s2.label()
-						runSeq(t, []*opDef{o, o}, withTails(concat(o.pre, s1.bytes(), o.pre, s2.bytes())), lab)
-						t.Nontrivial(o.name + "/seq/" + lab)
-						if t.Failed() {
-							return
-						}
+				for _, s2 := range second {
+					lab := s1.label() + " || " + s2.label()
+					runSeq(t, []*opDef{o, o}, withTails(concat(o.pre, s1.bytes(), o.pre, s2.bytes())), lab)
+					t.Nontrivial(o.name + "/seq/" + lab)
+					if t.Failed() {
+						return
 					}
 				}
 			})
@@ -720,6 +767,15 @@ func (Prop) Run(c *engine.Ctx) {
 			}
 		})
 	}
+}
+
+// streamsFrom2 lists all streams of <= 2 blocks (<= 1 rejection) of the operation under the given mask.
+func (o *opDef) streamsFrom2(mask []byte) []stream {
+	var r []stream
+	for _, f := range o.g.vals {
+		r = append(r, o.streamsFrom(f, mask, 2, false)...)
+	}
+	return r
 }
 
 // ---------------------------------------------------------------------------------------------
